@@ -108,7 +108,7 @@ WithDefaults(x) == [op |-> "exch", client |-> x.client, req |-> x.req, reply |->
                     hooks |-> x.hooks, pair |-> x.pair, defaults |-> 1]
 DefaultBenign(z) ==
     {WithDefaults(Exch(cl, DefArgs, ReplyTo(FramingOf(cl), DefArgs, <<1, 0>>), WithEmpties(ChunkScript(Len(ReplyTo(FramingOf(cl), DefArgs, <<1, 0>>)), {3, 7}), "deadline", 1), "none", 0, 0)) :
-        cl \in Clients}
+        cl \in Clients \cup {"gendef"}}
 DefaultStall(z) ==
     {WithDefaults(Exch(cl, DefArgs, ReplyTo(FramingOf(cl), DefArgs, <<1, 0>>), <<Chunk(3)>>, "stall", 0, 0)) : cl \in Clients}
 
